@@ -283,6 +283,16 @@ func mutateBug(chain []*packSpec, i int, m string, author identity.Interface) []
 		ops[len(ops)-1] = editOp(ops[len(ops)-1], func(m map[string]interface{}) { m["unknown_field"] = "x" })
 	case "op_dup":
 		p.ops = append(ops, ops[len(ops)-1])
+	case "create_not_first":
+		// the root pack opens with a comment, its one create operation comes second; everything else is by the book (the ref is
+		// named after the first operation)
+		b, err := json.Marshal(bug.NewAddCommentOp(author, 1600000000, "before the beginning", nil))
+		hx.Must(err)
+		p.ops = append([]json.RawMessage{b}, ops...)
+	case "create_missing":
+		b, err := json.Marshal(bug.NewAddCommentOp(author, 1600000000, "no beginning at all", nil))
+		hx.Must(err)
+		p.ops = append([]json.RawMessage{b}, ops[1:]...)
 	case "second_create":
 		b, err := json.Marshal(bug.NewCreateOp(author, 1600000901, "another create", "message", nil))
 		hx.Must(err)
